@@ -47,6 +47,10 @@ class Pattern(Serialize, ABC):
     def __repr__(self):
         return repr(self.to_regexp())
 
+    def _deserialize(self):
+        # flags are serialized as a list, but are compared as a set (e.g. `strtok.pattern.flags <= retok.pattern.flags`)
+        self.flags = frozenset(self.flags)
+
     # Pattern Hashing assumes all subclasses have a different priority!
     def __hash__(self):
         return hash((type(self), self.value, self.flags))
